@@ -182,7 +182,13 @@ class Gen:
         ds = [[tid, r.random() < 0.5]] if r.random() < 0.85 else []
         if r.random() < 0.3:
           ds.append([self.pick_id(key), r.random() < 0.5])
-        es = {'kind': 'ok', 'decisions': ds, 'delta': [{'t': None, 'kv': self.kv()}] if r.random() < 0.2 else []}
+        delta = [{'t': None, 'kv': self.kv()}] if r.random() < 0.2 else []
+        y = r.random()
+        if y < 0.08:
+          delta.append({'t': self.pick_id(key), 'kv': self.kv()})
+        elif y < 0.13:
+          delta.append({'t': 99, 'kv': self.kv()})        # names a trial that does not exist: the answer cannot be applied
+        es = {'kind': 'ok', 'decisions': ds, 'delta': delta}
       return dict(base, op=op, id=tid, es=es)
     if op == 'updateMetadata':
       us = [{'t': None if r.random() < 0.4 else self.pick_id(key), 'kv': self.kv()} for _ in range(r.randrange(1, 4))]
